@@ -89,7 +89,8 @@ def render_script(case, ebd_path):
             out.append(f"{s['op']} {shlex.quote(text)}")
         else:
             own = s.get("own", "")
-            out.append(f"{s['op']} -m{s['mode']:04o}" + (" -o0" if "o" in own else "") + (" -g0" if "g" in own else ""))
+            mode = "-m " + shlex.quote(s["text"]) if s.get("text") else f"-m{s['mode']:04o}"
+            out.append(f"{s['op']} {mode}" + (" -o0" if "o" in own else "") + (" -g0" if "g" in own else ""))
     return "\n".join(out) + "\n"
 
 
@@ -185,6 +186,7 @@ class Runner:
         env = self.env_for(case["eapi"], world)
         env.update(PKGCORE_EBD_READ_FD=str(r2), PKGCORE_EBD_WRITE_FD=str(w1))
         script = render_script(case, self.ebd_path)
+        umask0 = os.umask(case.get("umask", 0o022))  # both sides of the phase run under the script's umask
         proc = subprocess.Popen(["bash", "-c", script], env=env, pass_fds=(r2, w1), stdin=subprocess.DEVNULL, stdout=subprocess.PIPE,
                                 stderr=subprocess.STDOUT, cwd=world)
         os.close(r2)
@@ -233,6 +235,7 @@ class Runner:
         finally:
             ebd_mod.request_ebuild_processor, ebd_mod.release_ebuild_processor = saved
             os.chdir(cwd0)
+            os.umask(umask0)
             for f in (wf, rf):
                 try:
                     f.close()
@@ -250,7 +253,7 @@ class Runner:
         i = 0
         for s in case["steps"]:
             i += 1
-            ev = dict(tid=tid, i=i, eapi=case["eapi"], pf="pn-1", pn="pn", op=s["op"], path=s["path"], mode=s["mode"], own=s.get("own", ""), h=s["h"], a=s["a"],
+            ev = dict(tid=tid, i=i, eapi=case["eapi"], pf="pn-1", pn="pn", op=s["op"], path=s["path"], mode=s["mode"], own=s.get("own", ""), text=s.get("text", ""), h=s["h"], a=s["a"],
                       rc=0, img=[], died="")
             if s["op"] == "call":
                 if ncall < len(results):
@@ -271,6 +274,7 @@ class Runner:
 NAMES = ["a.txt", "b.c", "my file", "x+y.so", "lib-1.2.a", "README", "n.html", "p.png", "s.css", "t.xml", "Makefile", "run.sh"]
 DIRN = ["sub", "d 1", "inc", "deep", "e"]
 COMPS = ["opt", "usr", "etc", "var", "x", "lib", "lib64", "share", "foo-1", "k", "kk", "doc", "doc-extra"]
+SYM_MODES = [("a+rx", 0o555), ("u=rwx,g=rx,o=", 0o750), ("u=rw,go=r", 0o644), ("u=rwx,go=", 0o700)]  # = Sym* of Helpers_Cases.tla
 MODES = [0o644, 0o600, 0o755, 0o700, 0o640, 0o750, 0o444, 0o555, 0o4755, 0o2755, 0o6711, 0o1755, 0o2750, 0o1777]
 A0 = dict(items=[], rec=False, i18n="", dirs=[], src=[], srcabs=True, srctext="", tgt=[], tgtslash=False, rel=False, hx=[])
 
@@ -341,12 +345,17 @@ def rand_case(r_):
     eapi = r_.choice([0, 1, 2, 3, 4, 5, 6, 7, 8, 8])
     items, mans, mos = rand_world(r_)
     steps = []
+    last_h = None
 
     def dest(op, path):
-        steps.append(dict(op=op, path=path, mode=0, own="", h="-", a=A0))
+        steps.append(dict(op=op, path=path, mode=0, own="", text="", h="-", a=A0))
 
     def mode(op):
-        steps.append(dict(op=op, path=[], mode=r_.choice(MODES), own=r_.choice(["", "", "o", "g", "og"]), h="-", a=A0))
+        if r_.random() < 0.25:  # written symbolically: served by the external `install`
+            text, m = r_.choice(SYM_MODES)
+            steps.append(dict(op=op, path=[], mode=m, own="", text=text, h="-", a=A0))
+        else:
+            steps.append(dict(op=op, path=[], mode=r_.choice(MODES), own=r_.choice(["", "", "o", "g", "og"]), text="", h="-", a=A0))
 
     def distinct(pool, k):
         out, seen = [], set()
@@ -367,7 +376,7 @@ def rand_case(r_):
         for op in ("insopts", "exeopts", "diropts", "libopts"):
             if r_.random() < 0.2:
                 mode(op)
-        h = r_.choice(["doins", "doins", "dodoc", "dodoc", "doexe", "dobin", "dosbin", "dolib.so", "dolib.a", "dolib", "doman", "doman", "domo",
+        h = last_h if last_h and r_.random() < 0.35 else r_.choice(["doins", "doins", "dodoc", "dodoc", "doexe", "dobin", "dosbin", "dolib.so", "dolib.a", "dolib", "doman", "doman", "domo",
                        "dohtml", "dodir", "keepdir", "dosym", "dosym", "dohard"])
         a = dict(A0)
         if h in ("dodir", "keepdir"):
@@ -405,11 +414,12 @@ def rand_case(r_):
             a["rec"] = r_.random() < 0.5 if h in ("doins", "dodoc", "dohtml") else False
             if h == "dohtml":
                 a["hx"] = r_.choice([[], [], ["txt"], ["xml", "sh"]])
-        steps.append(dict(op="call", path=[], mode=0, own="", h=h, a=a))
+        steps.append(dict(op="call", path=[], mode=0, own="", text="", h=h, a=a))
+        last_h = h
         from_eapi = dict(dohard=4, dohtml=7, dolib=7).get(h)
         if from_eapi is not None and eapi >= from_eapi:
             break  # banned there: the helper dies and ends the phase
-    return dict(eapi=eapi, tag="random", steps=steps, world=items + mans + mos)
+    return dict(eapi=eapi, tag="random", steps=steps, world=items + mans + mos, umask=r_.choice([0o022, 0o022, 0o077, 0o027, 0o002]))
 
 
 # --------------------------------------------------------------------------- the check
@@ -458,7 +468,7 @@ def run(ck):
                 by_tag.setdefault(c["tag"], []).append(c)
             # tags "all-*" are small families that are replayed completely in every tier
             cases = [c for tag in sorted(by_tag)
-                     for c in (by_tag[tag] if tag.startswith("all-") else r_.sample(by_tag[tag], min(len(by_tag[tag]), 5)))]
+                     for c in (by_tag[tag] if tag.startswith("all-") else r_.sample(by_tag[tag], min(len(by_tag[tag]), 3)))]
         else:
             ck.exhaustive = True
         tid = 0
@@ -466,7 +476,7 @@ def run(ck):
             do(c, tid)
             tid += 1
         ck.sample(dict(direction="spec->code", eapi=cases[0]["eapi"], script=render_script(cases[0], "$EBD").splitlines()[11:]))
-        for _ in range(ck.pick(20, 500)):
+        for _ in range(ck.pick(15, 500)):
             c = rand_case(r_)
             do(c, tid, r_)
             tid += 1
